@@ -6,17 +6,10 @@
    Everything here computes under vm_compute, so the case files can run it next to the exact model. *)
 From Coq Require Import ZArith NArith List Bool.
 From Flocq Require Import Core BinarySingleNaN.
-From Verif Require Import Model.Epoch.
+From Verif Require Import Base.GoNum Model.Epoch.
 Import ListNotations.
 
-Definition f64 := binary_float 53 1024.
-Definition f64_prec : Prec_gt_0 53 := eq_refl.
-Definition f64_prec_emax : Prec_lt_emax 53 1024 := eq_refl.
-
-(* float64(x) for x : uint64 / uint *)
-Definition f64_of_N (x : N) : f64 := @binary_normalize 53 1024 f64_prec f64_prec_emax mode_NE (Z.of_N x) 0 false.
-Definition f64_div (x y : f64) : f64 := @Bdiv 53 1024 f64_prec f64_prec_emax mode_NE x y.
-Definition f64_lt (x y : f64) : bool := Bltb x y.
+(* float64 and its operations: Base/GoNum.v (shared with the definitions generated from the Go source) *)
 
 Open Scope N_scope.
 
